@@ -231,9 +231,12 @@ type ApplyStageRunner struct {
 	output  chan<- *BlockItem
 	errors  chan<- error
 	metrics *PipelineMetrics
-	done    chan struct{}
-	running bool
-	mu      sync.Mutex
+	// processed is called with the number of items the apply stage has
+	// finished with (applied, failed or skipped)
+	processed func(int)
+	done      chan struct{}
+	running   bool
+	mu        sync.Mutex
 }
 
 // NewApplyStageRunner creates a new runner for the apply stage.
@@ -267,6 +270,12 @@ func NewApplyStageRunner(
 // Must be called before Start() to avoid data races.
 func (r *ApplyStageRunner) SetMetrics(metrics *PipelineMetrics) {
 	r.metrics = metrics
+}
+
+// SetProcessedFunc sets a callback invoked with the number of items the apply
+// stage has finished with. Must be called before Start() to avoid data races.
+func (r *ApplyStageRunner) SetProcessedFunc(processed func(int)) {
+	r.processed = processed
 }
 
 // Start starts the apply stage runner.
@@ -330,6 +339,9 @@ func (r *ApplyStageRunner) run(ctx context.Context) {
 			// that became ready). This eliminates the data loss vulnerability from
 			// the previous callback-based approach where items could be dropped if
 			// the pending queue overflowed.
+			if r.processed != nil && len(processed) > 0 {
+				r.processed(len(processed))
+			}
 			for _, p := range processed {
 				r.forwardItem(ctx, p)
 			}
